@@ -302,8 +302,17 @@ wait:
 			// routers are left only on nodes whose stream was cancelled and re-created during the round:
 			// a request written to the old stream after its failure had been handled is never answered
 			// (known finding C18/router-leak-after-stream-cancel)
-			sum.known("C18:router-leak-after-stream-cancel")
+			// (defect C18/router-leak-after-stream-cancel, repaired by fix 5e6386a)
 			sum.count("residue-after-stream-cancel")
+			var d []string
+			for _, nd := range sh.all.Nodes() {
+				if routers(nd) > 0 {
+					est, broken := gorums.VerifFlags(nd.RawNode)
+					d = append(d, fmt.Sprintf("node %d established=%v broken=%v routers=%v", nd.ID(), est, broken, gorums.VerifRouters(nd.RawNode)))
+				}
+			}
+			sum.mismatch(Mismatch{Property: "C18", Case: fmt.Sprintf("xtalk round=%d calls=%d", round, atomic.LoadInt64(&serial)), Expected: "no router left once every targeted node has answered",
+				Observed: "routers left on nodes whose stream was re-created during the round: " + strings.Join(l, ", "), Detail: strings.Join(d, " | ") + " || " + strings.Join(signatures(goroutineDump()), "; ")})
 			return
 		}
 		sum.mismatch(Mismatch{Property: "C18", Case: fmt.Sprintf("xtalk round=%d calls=%d", round, atomic.LoadInt64(&serial)), Expected: "no router left once every targeted node has answered", Observed: strings.Join(l, ", "), Detail: strings.Join(signatures(goroutineDump()), "; ")})
